@@ -188,8 +188,10 @@ def run(ctx):
                     ctx.violation('torch intersection of a non-parallel ray is not finite', rec,
                                   {'api': 'torch', 'fn': 'intersect_w_surface', 'what': 'finite', 'kind': kind, 'class': cls})
             else:
-                # parallel rays must be flagged (non-finite coordinates), not given coordinates
-                if np.all(np.isfinite(n1[0])) and np.linalg.norm(n1[0]) < 1e6 * scale:
+                # parallel rays must be flagged (non-finite coordinates), not given coordinates.  A direction built orthogonal to a GENERIC
+                # normal is parallel only up to float32 rounding (|n.d| ~ 1e-7), so a far-away hit (> 1e3 x the scene scale) is a correct
+                # answer for the ray that was actually passed; exactly parallel rays are the subject of exact_parallel_cases()
+                if np.all(np.isfinite(n1[0])) and np.linalg.norm(n1[0]) < 1e3 * scale:
                     ctx.violation('torch gives finite coordinates %s to a ray parallel to the plane' % n1[0].tolist(), rec,
                                   {'api': 'torch', 'fn': 'intersect_w_surface', 'what': 'parallel', 'kind': kind})
             # ---- NumPy
